@@ -70,6 +70,7 @@ type countingReader struct {
 	data  []byte
 	pos   int
 	chunk int
+	eager bool // the last bytes come together with io.EOF, as the io.Reader contract allows
 }
 
 func (r *countingReader) Read(p []byte) (int, error) {
@@ -82,6 +83,9 @@ func (r *countingReader) Read(p []byte) (int, error) {
 	}
 	n = copy(p[:n], r.data[r.pos:])
 	r.pos += n
+	if r.eager && r.pos >= len(r.data) {
+		return n, io.EOF
+	}
 	return n, nil
 }
 
@@ -92,9 +96,9 @@ func libTime(b []byte) util.EFITime {
 }
 
 // checkDescriptor: in = descriptor ++ payload where the reference says the descriptor occupies n bytes.
-func checkDescriptor(in []byte, chunk int) error {
+func checkDescriptor(in []byte, chunk int, eager bool) error {
 	want, n, rerr := authvar.DecodeAuth2(in)
-	r := &countingReader{data: in, chunk: chunk}
+	r := &countingReader{data: in, chunk: chunk, eager: eager}
 	got, lerr := signature.ReadEFIVariableAuthencation2(r)
 	if rerr != nil || want.Revision != authvar.Revision2 || want.Type != authvar.TypeEFIGUID {
 		// not a descriptor by the reference: the library may only answer with an error
@@ -181,9 +185,9 @@ func commonPrefix(a, b []byte) int {
 	return i
 }
 
-func checkWinCert(in []byte, chunk int) error {
+func checkWinCert(in []byte, chunk int, eager bool) error {
 	want, n, rerr := authvar.DecodeWinCert(in)
-	r := &countingReader{data: in, chunk: chunk}
+	r := &countingReader{data: in, chunk: chunk, eager: eager}
 	got, lerr := signature.ReadWinCertificate(r)
 	if rerr != nil || want.Revision != authvar.Revision2 {
 		if lerr == nil {
@@ -254,8 +258,16 @@ func checkCase(c Case) error {
 		u.Unmarshal(bytes.NewBuffer(append([]byte{}, desc[:cut]...)))
 		hx.Class("truncated_decode_first")
 	}
-	if err := checkDescriptor(in, c.Chunk); err != nil {
+	if err := checkDescriptor(in, c.Chunk, false); err != nil {
 		return fmt.Errorf("descriptor: %w", err)
+	}
+	// the same through a reader that delivers its last bytes together with io.EOF: with the payload behind the
+	// descriptor, and with the descriptor ending exactly where the stream ends (an update with an empty payload)
+	if err := checkDescriptor(in, c.Chunk, true); err != nil {
+		return fmt.Errorf("descriptor, reader returning the last bytes with io.EOF: %w", err)
+	}
+	if err := checkDescriptor(desc, c.Chunk, true); err != nil {
+		return fmt.Errorf("descriptor at the very end of a reader returning the last bytes with io.EOF: %w", err)
 	}
 	// 2. value -> encode -> decode
 	v := signature.EFIVariableAuthentication2{
@@ -311,8 +323,26 @@ func checkCase(c Case) error {
 	}
 	// 4. plain WIN_CERTIFICATE of any type, followed by payload
 	wc := append(authvar.EncodeWinCert(authvar.Revision2, c.WinType, c.CertData), c.Payload...)
-	if err := checkWinCert(wc, c.Chunk); err != nil {
+	if err := checkWinCert(wc, c.Chunk, false); err != nil {
 		return fmt.Errorf("WIN_CERTIFICATE type %#x: %w", c.WinType, err)
+	}
+	if err := checkWinCert(wc[:len(wc)-len(c.Payload)], c.Chunk, true); err != nil {
+		return fmt.Errorf("WIN_CERTIFICATE type %#x at the very end of a reader returning the last bytes with io.EOF: %w", c.WinType, err)
+	}
+	// 5. the GUID-carrying decoder called on its own with a certificate of another wCertificateType: it may refuse,
+	// but a value it does return must encode to the bytes it was decoded from
+	if c.WinType != authvar.TypeEFIGUID {
+		other := authvar.EncodeWinCert(authvar.Revision2, c.WinType, append(append([]byte{}, ct.Wire()...), c.CertData...))
+		if w, err := signature.ReadWinCertificateUEFIGUID(bytes.NewReader(append(append([]byte{}, other...), c.Payload...))); err == nil {
+			hx.Class("uefi_guid_decoder_other_type_accepted")
+			var ob bytes.Buffer
+			signature.WriteWinCertificateUEFIGUID(&ob, &w)
+			if !bytes.Equal(ob.Bytes(), other) {
+				return fmt.Errorf("ReadWinCertificateUEFIGUID accepts a certificate of type %#x (%d bytes) and WriteWinCertificateUEFIGUID of the decoded value gives %d bytes, equal prefix %d", c.WinType, len(other), ob.Len(), commonPrefix(ob.Bytes(), other))
+			}
+		} else {
+			hx.Class("uefi_guid_decoder_other_type_refused")
+		}
 	}
 	return nil
 }
@@ -359,10 +389,10 @@ func fuzzOracle(in []byte) error {
 	if len(in) > 1<<17 {
 		return nil
 	}
-	if err := checkDescriptor(in, 0); err != nil {
+	if err := checkDescriptor(in, 0, false); err != nil {
 		return err
 	}
-	return checkWinCert(in, 0)
+	return checkWinCert(in, 0, false)
 }
 
 func FuzzC10(f *testing.F) {
